@@ -129,6 +129,8 @@ class RSync:
             return
         # normalize a trailing '/' away
         self._sourcedir = os.path.dirname(os.path.join(self._sourcedir, "x"))
+        # links are collected anew for every send()
+        self._links = []
         # send directory structure and file timestamps/sizes
         self._send_directory_structure(self._sourcedir)
 
